@@ -470,11 +470,11 @@ def ls_scenarios(name, tree, events, chunk=64, desc=""):
 # =====================================================================================
 # C15: the event filter
 # =====================================================================================
-def descriptors():
+def descriptors(base_s=None):
     """the bounded grammar of paths for C15: valid and near-miss Digital RF / Digital Metadata / properties paths, at
     times T-1s .. T+1s around the reference time T = 0 (rebased; windows are placed around it).
     Returns (tree, list of descriptor dicts with 'rel' and the matching channel kind 'ck')"""
-    t = Tree(1700000000 - 1700000000 % 3600)
+    t = Tree(1700000000 - 1700000000 % 3600 if base_s is None else base_s)
     out = []
 
     def add(fid, ck, label):
